@@ -315,6 +315,16 @@ func c18Valid(c *core.Ctx) {
 				}
 			}
 		}
+		// structs with a nested struct field that is itself constrained (required on a struct)
+		for _, sub := range []string{"absent", "zero", "set"} {
+			for _, k := range []string{"required", "omitempty", "required|ptr"} {
+				for _, path := range []string{"prefix", "value"} {
+					if !yield(c18ValCase{Kind: "nested", Typ: sub, Text: path, Cons: k}) {
+						return
+					}
+				}
+			}
+		}
 		for _, e := range []string{"${n1}-${n1}", "${n1}+${n2}", "${n1}*0", "${n2}-${n1}", "(${n1}+${n2})*2"} {
 			for _, k := range []string{"gt=0", "required", "min=1", "max=2", "eq=3", "ne=0"} {
 				if !yield(c18ValCase{Kind: "expr", Typ: "int", Text: e, Cons: k}) {
@@ -395,6 +405,40 @@ func c18Valid(c *core.Ctx) {
 				}
 			}
 			h = reflect.New(reflect.StructOf([]reflect.StructField{{Name: "X", Type: types[cs.Typ], Tag: reflect.StructTag(tag)}}))
+		case "nested":
+			ptr := strings.HasSuffix(cs.Cons, "|ptr")
+			cons := strings.TrimSuffix(cs.Cons, "|ptr")
+			subT := reflect.StructOf([]reflect.StructField{{Name: "X", Type: types["int"], Tag: `yaml:"x"`}})
+			subField := reflect.StructField{Name: "Sub", Type: subT, Tag: reflect.StructTag(fmt.Sprintf(`yaml:"sub" validate:"%s"`, cons))}
+			if ptr {
+				subField.Type = reflect.PointerTo(subT)
+			}
+			inner := reflect.StructOf([]reflect.StructField{{Name: "A", Type: types["string"], Tag: `yaml:"a" validate:"required"`}, subField})
+			ref := reflect.New(inner).Elem()
+			ref.Field(0).SetString("x")
+			doc += "sect:\n  a: x\n"
+			switch cs.Typ {
+			case "zero":
+				doc += "  sub:\n    x: 0\n"
+				if ptr {
+					ref.Field(1).Set(reflect.New(subT))
+				}
+			case "set":
+				doc += "  sub:\n    x: 4\n"
+				if ptr {
+					ref.Field(1).Set(reflect.New(subT))
+					ref.Field(1).Elem().Field(0).SetInt(4)
+				} else {
+					ref.Field(1).Field(0).SetInt(4)
+				}
+			}
+			bound = ref.Interface()
+			verdict(func() error { return validator.New(validator.WithRequiredStructEnabled()).Struct(bound) })
+			tag := `prefix:"sect,validate"`
+			if cs.Text == "value" {
+				tag = `value:"${sect},validate"`
+			}
+			h = reflect.New(reflect.StructOf([]reflect.StructField{{Name: "X", Type: inner, Tag: reflect.StructTag(tag)}}))
 		case "struct":
 			av := strings.SplitN(cs.Typ, "|", 2)
 			ks := strings.SplitN(cs.Cons, "|", 2)
